@@ -68,8 +68,15 @@ func (v tval) toml() string {
 	return v.repr
 }
 
+// every TOML value that is not a table, in each syntactic family (the documented answer is the same for all: a
+// configuration error local to the lint)
+var nonTableScalars = []string{"5", "-1", "0", "\"x\"", "\"\"", "true", "false", "1.5", "1979-05-27T07:32:00Z", "'lit'"}
+var nonTableArrays = []string{"[1, 2]", "[]", "[\"a\"]", "[[1], [2]]", "[[]]", "[true]", "[1.5, 2.5]", "[ [], [] ]", "[\"\"]"}
+
 type sectionSpec struct {
 	kind   string // absent | tbl | scalar | array | aot
+	repr   string // scalar / array: the TOML text of the value
+	inline bool   // tbl: written as an inline table  name = { k = v }
 	fields [][2]interface{}
 	keys   []string
 	vals   []tval
@@ -101,16 +108,29 @@ func renderDoc(doc map[string]sectionSpec) string {
 	sort.Strings(names)
 	for _, n := range names { // scalars and arrays first
 		switch doc[n].kind {
-		case "scalar":
-			fmt.Fprintf(&b, "%s = 5\n", n)
-		case "array":
-			fmt.Fprintf(&b, "%s = [1, 2]\n", n)
+		case "scalar", "array":
+			r := doc[n].repr
+			if r == "" {
+				r = map[string]string{"scalar": "5", "array": "[1, 2]"}[doc[n].kind]
+			}
+			fmt.Fprintf(&b, "%s = %s\n", n, r)
+		case "tbl":
+			if doc[n].inline {
+				var kv []string
+				for i, k := range doc[n].keys {
+					kv = append(kv, fmt.Sprintf("%s = %s", k, doc[n].vals[i].toml()))
+				}
+				fmt.Fprintf(&b, "%s = { %s }\n", n, strings.Join(kv, ", "))
+			}
 		}
 	}
 	for _, n := range names {
 		s := doc[n]
 		switch s.kind {
 		case "tbl":
+			if s.inline {
+				continue
+			}
 			fmt.Fprintf(&b, "[%s]\n", n)
 			for i, k := range s.keys {
 				fmt.Fprintf(&b, "%s = %s\n", k, s.vals[i].toml())
@@ -127,11 +147,14 @@ func randSection(rng *RNG) sectionSpec {
 	case 0, 1:
 		return sectionSpec{kind: "absent"}
 	case 2:
-		return sectionSpec{kind: "scalar"}
+		return sectionSpec{kind: "scalar", repr: nonTableScalars[rng.Intn(len(nonTableScalars))]}
 	case 3:
-		return sectionSpec{kind: []string{"array", "aot"}[rng.Intn(2)]}
+		if rng.Intn(3) == 0 {
+			return sectionSpec{kind: "aot"}
+		}
+		return sectionSpec{kind: "array", repr: nonTableArrays[rng.Intn(len(nonTableArrays))]}
 	}
-	s := sectionSpec{kind: "tbl"}
+	s := sectionSpec{kind: "tbl", inline: rng.Intn(6) == 0}
 	vals := []tval{{"int", "5"}, {"int", "-3"}, {"int", "0"}, {"bool", "true"}, {"bool", "false"}, {"str", "hello"}, {"str", ""}, {"str", "7"}, {"float", "1.5"}, {"array", ""}, {"table", ""}}
 	for _, k := range []string{"A", "B", "S", "Zextra", "a"} {
 		if rng.Intn(2) == 0 {
@@ -380,7 +403,11 @@ func subConfig(out string, seed uint64, tier string, arg string) {
 				}
 				// error locality on the real registry: a broken section for one configurable lint
 				for _, victim := range []string{"e_rsa_fermat_factorization", "e_subj_contains_html_entities", "e_subj_orgunit_in_ca_cert", "e_crl_next_update_invalid"} {
-					for _, text := range []string{victim + " = 5\n", "[" + victim + "]\nRounds = \"x\"\nSkip = 3\nCrossCert = \"no\"\nSubscriberCRL = 1.5\n", "[[" + victim + "]]\nx = 1\n"} {
+					texts := []string{victim + " = 5\n", "[" + victim + "]\nRounds = \"x\"\nSkip = 3\nCrossCert = \"no\"\nSubscriberCRL = 1.5\n", "[[" + victim + "]]\nx = 1\n"}
+					for _, v := range append(append([]string{}, nonTableScalars...), nonTableArrays...) {
+						texts = append(texts, victim+" = "+v+"\n")
+					}
+					for _, text := range texts {
 						bad, berr := lint.NewConfigFromString(text)
 						if berr != nil {
 							continue
